@@ -109,6 +109,10 @@ def gen_spec(rng, thorough=False, force=None):
 		}
 		if demand is not None and rng.random() < .2:
 			nodes[str(l)]['demand'] = demand[:1]; nodes[str(l)]['scalar_demand'] = True
+		rngp = random.Random(31 * l + 7 * T + n)          # private stream: the main one is unchanged
+		if demand is not None and not nodes[str(l)].get('scalar_demand') and len(demand) >= 3 and rngp.random() < .2:
+			# the demand list given as a NumPy array, starting with periods of zero demand (nothing has been demanded yet: the fill rate is 1)
+			nodes[str(l)]['demand'] = ['0'] * rngp.choice([1, 2]) + list(demand[1:]); nodes[str(l)]['np_demand'] = True
 		if rng.random() < .2:
 			nodes[str(l)]['none_objects'] = True          # demand_source / disruption_process set to None where the node has none
 		# cost FUNCTIONS (callables) instead of rates, as polynomials the model can evaluate exactly
@@ -218,6 +222,9 @@ def build_py(spec, relabel=None):
 			n.inventory_policy = po_
 		if nd['demand'] is not None:
 			n.demand_source = DemandSource(type='D', demand_list=[num(x) for x in nd['demand']])
+			if nd.get('np_demand'):
+				import numpy as _np
+				n.demand_source = DemandSource(type='D', demand_list=_np.array([num(x) for x in nd['demand']]))
 			if nd.get('scalar_demand'):
 				n.demand_source = DemandSource(type='D', demand_list=num(nd['demand'][0]))          # one number: the same demand in every period
 		elif nd.get('none_objects'):
